@@ -306,6 +306,8 @@ impl RelationSet {
     pub fn add_cycle(&mut self, r: Relation) {
         assert_eq!(r.cofactor, 1);
         self.n_cycles[min(self.n_cycles.len(), r.cyclelen as usize) - 1] += 1;
+        #[cfg(yamaquasi_verif)]
+        crate::verif::observe_relation(&self.n, &r);
         self.cycles.push(r);
     }
 
